@@ -300,6 +300,11 @@ def mk_fn(f, variant=None):
         # members of a str-mixin Enum: they hash and compare like their value, their str() is
         # something else ('K.M3')
         return lambda x: _str_enum()['M%d' % (g(x) + 50)]
+    if variant == 'npint':
+        # numpy scalars (fields of items taken from an array): their == / != return numpy.bool_,
+        # which is truthy / falsy but is not the object True / False
+        import numpy
+        return lambda x: (lambda v: numpy.int64(v) if isinstance(v, int) and not isinstance(v, bool) else v)(g(x))
     if variant == 'sentinel':
         # one fixed object() per value: compared by identity only, not copyable into an equal
         return lambda x: _SENTINELS.setdefault(g(x), _Sentinel(g(x)))
